@@ -64,8 +64,10 @@ def build(case: dict[str, Any], with_transforms: bool, raw: bool = False) -> tup
     transforms = None
     if with_transforms:
         transforms = OptModelTransforms(
-            variables=VariableScaler(None if case.get("v_kind") == "offsets" else np.array(case["vscale"]),
-                                     None if case.get("v_kind") == "scales" else np.array(case["voff"])) if case["use_v"] else None,
+            # ("scalar": one factor for all variables, given as a 0-d array)
+            variables=(VariableScaler(np.array(case["vscale"][0]), None) if case.get("v_kind") == "scalar" else
+                       VariableScaler(None if case.get("v_kind") == "offsets" else np.array(case["vscale"]),
+                                      None if case.get("v_kind") == "scales" else np.array(case["voff"]))) if case["use_v"] else None,
             objectives=ObjectiveScaler(case["oscale"]) if case["use_o"] else None,
             nonlinear_constraints=ConstraintScaler(case["cscale"]) if case["use_c"] and c_n else None,
         )
@@ -257,7 +259,7 @@ def hypothesis_shard(item: dict[str, Any]) -> Collector:
             "slopes": [draw(num) for _ in range(r_n * (k_n + c_n) * n)], "offsets": [draw(num) for _ in range(r_n * (k_n + c_n))],
             "design": [draw(st.sampled_from([-1.0, 1.0, 0.5, -0.25, 3.0, 0.0])) for _ in range(r_n * p_n * n)],
             "use_v": draw(st.integers(0, 4)) > 0, "use_o": draw(st.booleans()), "use_c": draw(st.booleans()),
-            "v_kind": draw(st.sampled_from(["both", "both", "offsets", "scales"])), "split": draw(st.booleans()),
+            "v_kind": draw(st.sampled_from(["both", "both", "offsets", "scales", "scalar"])), "split": draw(st.booleans()),
             "vscale": [draw(st.sampled_from([0.5, 2.0, 10.0, 1.0, 0.1])) for _ in range(n)],
             "voff": [draw(st.sampled_from([0.0, 1.0, -2.5])) for _ in range(n)],
             "oscale": [draw(st.sampled_from([2.0, 0.5, 100.0])) for _ in range(k_n)],
